@@ -64,7 +64,7 @@ static void run() {
     vp::CaseScope scope([] { return ser(g_cur); });
     size_t maxnodes = a.thorough() ? 6 : 5, maxlen = a.thorough() ? 7 : 6;
     vp::stats().rule = vp::fmt("enum: (a) all trees with <= %zu nodes and depth <= 4 over symbols {a,foo,x-1,+}, integers {0,7,255,65536} and empty lists, rendered with 3 whitespace styles x "
-                               "decimal / #x lower / #x upper / mixed-case digits; (b) all strings of length <= %zu over '( ) space a 1 # x F - newline'; every input presented NUL-terminated and "
+                               "decimal / #x lower / #x upper / mixed-case digits; (a') lists of 254..4000 elements, sub-lists late in long parents, nesting depth 50..1000; (b) all strings of length <= %zu over '( ) space a 1 # x F - newline'; every input presented NUL-terminated and "
                                "length-delimited in an exact-size heap block; oracle = independent reference reader, allocation ledger, ASan", maxnodes, maxlen);
     vp::stats().exhaustive = true;
     build_trees(maxnodes);
@@ -94,6 +94,20 @@ static void run() {
             for (size_t i = 0; i < len; i++) { s[i] = ALPHA[x % 10]; x /= 10; }
             run_input(s, false);
             if (vp::too_many_failures()) return;
+        }
+    }
+    // long lists and deep nesting: element counts / depths at 2^8 and beyond (a guard or counter in a narrow type shows here)
+    {
+        unsigned k = 0;
+        auto atoms = [](size_t n, size_t salt) { std::vector<Tree> v; for (size_t i = 0; i < n; i++) v.push_back((i + salt) % 3 == 0 ? Tree::symbol(SYMS[(i + salt) % 4]) : Tree::integer(i * 7 + salt)); return v; };
+        std::vector<Tree> big;
+        for (size_t n : {(size_t)254, (size_t)255, (size_t)256, (size_t)257, (size_t)300, (size_t)1000, (size_t)4000}) big.push_back(Tree::list(atoms(n, n)));
+        { auto v = atoms(200, 1); v.push_back(Tree::list(atoms(60, 2))); v.push_back(Tree::symbol("tail")); big.push_back(Tree::list(v)); }        // a sub-list late in a long parent
+        { auto v = atoms(3, 5); auto w = atoms(300, 6); w.insert(w.begin() + 150, Tree::list(atoms(300, 7))); v.push_back(Tree::list(w)); big.push_back(Tree::list(v)); }
+        for (size_t depth : {(size_t)50, (size_t)255, (size_t)256, (size_t)257, (size_t)1000}) { Tree t = Tree::list({Tree::symbol("x")}); for (size_t i = 0; i < depth; i++) t = Tree::list({Tree::integer(i), t, Tree::list()}); big.push_back(t); }
+        for (auto &t : big) {
+            if (k++ % a.nshards != a.shard) continue;
+            for (int ws = 0; ws < 3; ws++) { std::string out; unsigned salt = k; render(t, ws, 4, out, salt); run_input(out, true); vp::cls("long-list-or-deep-nesting"); }
         }
     }
     // a few hand-picked shapes outside the small alphabet
